@@ -38,6 +38,8 @@ func externEffects(name string) map[string]Sort {
 		return map[string]Sort{"Reader.pos": arraySort(SInt, SInt)}
 	case "sync/atomic.AddUint32", "sync/atomic.StoreUint32":
 		return map[string]Sort{"F.parser.heredoc.n": arraySort(SInt, SInt)}
+	case "sync.(*Mutex).Lock", "sync.(*Mutex).Unlock":
+		return map[string]Sort{"Mutex.locked": arraySort(SInt, SBool)}
 	case "sync/atomic.(*Value).Store":
 		return map[string]Sort{"AtomicValue": arraySort(SInt, SIface)}
 	case "sort.Strings":
@@ -56,7 +58,7 @@ func externEffects(name string) map[string]Sort {
 // externPure: functions without effect on the modelled state.
 func externPure(name string) bool {
 	for _, p := range []string{"strings.", "strconv.", "unicode.", "unicode/utf8.", "fmt.", "errors.New", "os.Lstat", "os.Open", "os.Getpid", "os.Environ",
-		"os.(*File).", "regexp.", "bytes.", "bufio.New", "sync.(*Mutex).", "sync/atomic.Load", "sync/atomic.(*Value).Load", "path/filepath.", "os/user.", "error.Error", "runtime.", "io.", "sort.", "math."} {
+		"os.(*File).", "regexp.", "bytes.", "bufio.New", "sync/atomic.Load", "sync/atomic.(*Value).Load", "path/filepath.", "os/user.", "error.Error", "runtime.", "io.", "sort.", "math."} {
 		if strings.HasPrefix(name, p) {
 			return true
 		}
@@ -360,6 +362,20 @@ func (f *Frame) extern(c *cursor, site ssa.Instruction, name string, sig *types.
 		e.assume(eq(eq(er, nilIface), not(failed)), er.S)
 		return []Term{er}
 	case "sync.(*Mutex).Lock", "sync.(*Mutex).Unlock":
+		// ghost: the mutex is held by this thread of control.  Locking a mutex
+		// that is held is a self-deadlock, unlocking one that is not is a fatal
+		// error; what other goroutines do with the mutex is not modelled.
+		m := arg(0)
+		arr := e.family(st, "Mutex.locked", arraySort(SInt, SBool))
+		held := sel(arr, m, SBool)
+		if name == "sync.(*Mutex).Lock" {
+			f.guard(c, "lock", site, not(held))
+			e.setFamily(st, "Mutex.locked", store(arr, m, tTrue))
+		} else {
+			f.guard(c, "lock", site, held)
+			e.setFamily(st, "Mutex.locked", store(arr, m, tFalse))
+		}
+		e.famSort["Mutex.locked"] = arraySort(SInt, SBool)
 		return nil
 	case "sync/atomic.LoadUint32":
 		if lv, ok := f.lvals[argv[0]]; ok {
